@@ -4,7 +4,7 @@
 # the work happens in /tmp/sweep (a git worktree of /repo HEAD plus a copy of /verif whose harness points at it).
 # usage: tools/sweep_seeds.sh [seed-dir-name ...]   (default: all)
 set -u
-W=/tmp/sweep
+W=${SWEEP_DIR:-/tmp/sweep}
 rm -rf $W/verif
 mkdir -p $W
 if [ ! -d $W/repo ]; then git -C /repo worktree add -q --detach $W/repo HEAD || exit 2; fi
